@@ -81,7 +81,7 @@ std::string describe(const Case& c)
     std::ostringstream o;
     o << (c.what == ENUMERATE ? "enumerate" : "reverse") << "("
       << (c.cat == LVALUE ? "lvalue " : c.cat == CONST_LVALUE ? "const " : c.cat == RVALUE ? "temporary " : "const temporary ")
-      << (c.style ? "[it++ loop] " : "")
+      << (c.style == 1 ? "[it++ loop] " : c.style == 2 ? "[const loop variable] " : c.style == 3 ? "[range object moved first] " : "")
       << kind_name(c.kind) << " of length " << c.vals.size();
     if (c.kind == FIXED_VECTOR)
         o << " capacity " << c.vals.size() + static_cast<std::size_t>(c.extra_cap);
@@ -110,7 +110,7 @@ Case generate(vf::Src& src, const std::string& mode)
     c.kind = src.irange(0, KIND_COUNT - 1);
     c.cat = src.irange(0, 3);
     c.what = src.irange(0, 1);
-    c.style = src.irange(0, 1);
+    c.style = src.irange(0, 3);
     int n;
     if (c.kind == STD_ARRAY)
         n = std::vector<int>{ 0, 1, 2, 3, 7 }[src.index(5)];
@@ -403,11 +403,27 @@ struct RevVisitor
                 if (!vis(x))                                                                       \
                     break;                                                                         \
         }                                                                                          \
-        else                                                                                       \
+        else if (c.style == 1)                                                                     \
         {                                                                                          \
             auto&& rg = EXPR;                                                                      \
             for (auto it = rg.begin(); it != rg.end(); it++)                                       \
                 if (!vis(*it))                                                                     \
+                    break;                                                                         \
+        }                                                                                          \
+        else if (c.style == 2)                                                                     \
+        {                                                                                          \
+            /* const loop variable: the const accessors of the visited pair */                    \
+            for (const auto x : EXPR)                                                              \
+                if (!vis(x))                                                                       \
+                    break;                                                                         \
+        }                                                                                          \
+        else                                                                                       \
+        {                                                                                          \
+            /* the range object is moved into another object first, then iterated */              \
+            auto rg = EXPR;                                                                        \
+            auto rg2 = std::move(rg);                                                              \
+            for (auto x : rg2)                                                                     \
+                if (!vis(x))                                                                       \
                     break;                                                                         \
         }                                                                                          \
         vis.finish();                                                                              \
@@ -417,17 +433,26 @@ struct RevVisitor
     do                                                                                             \
     {                                                                                              \
         RevVisitor vis(c, r, HOW, ADDRS);                                                          \
-        if (c.style == 0)                                                                          \
+        if (c.style == 0 || c.style == 2)                                                          \
         {                                                                                          \
             for (auto& x : EXPR)                                                                   \
                 if (!vis(x))                                                                       \
                     break;                                                                         \
         }                                                                                          \
-        else                                                                                       \
+        else if (c.style == 1)                                                                     \
         {                                                                                          \
             auto&& rg = EXPR;                                                                      \
             for (auto it = rg.begin(); it != rg.end(); it++)                                       \
                 if (!vis(*it))                                                                     \
+                    break;                                                                         \
+        }                                                                                          \
+        else                                                                                       \
+        {                                                                                          \
+            /* the range object is moved into another object first, then iterated */              \
+            auto rg = EXPR;                                                                        \
+            auto rg2 = std::move(rg);                                                              \
+            for (auto& x : rg2)                                                                    \
+                if (!vis(x))                                                                       \
                     break;                                                                         \
         }                                                                                          \
         vis.finish();                                                                              \
@@ -632,12 +657,13 @@ std::string check(const Case& c, vf::Ctx& ctx)
     ctx.tag(std::string("kind:") + kind_name(c.kind));
     ctx.tag(c.cat == LVALUE ? "cat:lvalue" : c.cat == CONST_LVALUE ? "cat:const" :
             c.cat == RVALUE ? "cat:temporary" : "cat:const-temporary");
-    ctx.tag(c.style ? "style:post-increment-loop" : "style:range-for");
+    ctx.tag(c.style == 1 ? "style:post-increment-loop" : c.style == 2 ? "style:const-loop-variable" :
+            c.style == 3 ? "style:range-object-moved-first" : "style:range-for");
     ctx.tag(c.what == ENUMERATE ? "what:enumerate" : "what:reverse");
     ctx.tag("len:" + std::to_string(c.vals.size()));
     // non-trivial: anything the suite does not have - length != 3, node based or
     // temporary ranges, write-through (every lvalue case writes)
-    if (c.vals.size() != 3 || c.kind == LIST || c.kind == MAP || c.kind == DEQUE || c.cat >= RVALUE || c.style == 1 ||
+    if (c.vals.size() != 3 || c.kind == LIST || c.kind == MAP || c.kind == DEQUE || c.cat >= RVALUE || c.style >= 1 ||
         c.cat == LVALUE)
         ctx.mark_nontrivial();
     switch (c.kind)
